@@ -27,6 +27,14 @@ func runBlocks(drv, cwd string, blocks []block, perBlock time.Duration, env ...s
 	outs := make([]blockOut, len(blocks))
 	start := 0
 	for start < len(blocks) {
+		if core.Aborted() {
+			// the run is already decided (violations reported a while ago):
+			// what is left is not executed
+			for b := start; b < len(blocks); b++ {
+				outs[b].died, outs[b].timedOut, outs[b].stderr = true, true, "skipped: run stopped early after violations"
+			}
+			break
+		}
 		var ops []proto.Op
 		type span struct{ b, lo, hi int }
 		var spans []span
@@ -41,6 +49,9 @@ func runBlocks(drv, cwd string, blocks []block, perBlock time.Duration, env ...s
 		to := perBlock * time.Duration(len(blocks)-start)
 		if to < 60*time.Second {
 			to = 60 * time.Second
+		}
+		if to > 180*time.Second {
+			to = 180 * time.Second // blocks take milliseconds; one that hangs must not cost the sum of all allowances
 		}
 		ro := core.RunScript(drv, cwd, ops, to, env...)
 		guilty := -1
